@@ -1,8 +1,46 @@
+import KM.Driver.C01
+import KM.Driver.C02
+import KM.Driver.C03
+import KM.Driver.C04
+import KM.Driver.C05
+import KM.Driver.C06
+import KM.Driver.C07
+import KM.Driver.C08
+import KM.Driver.C09
+import KM.Driver.C10
+import KM.Driver.C11
+import KM.Driver.C12
+import KM.Driver.C13
+import KM.Driver.C14
+import KM.Driver.C15
+import KM.Driver.C16
 import KM.Driver.C17
+import KM.Driver.C18
+import KM.Driver.C19
+import KM.Driver.C20
 
 def handlerFor (prop mode : String) : Option KM.Driver.Handler :=
   match prop with
+  | "C01" => KM.Driver.C01.handler mode
+  | "C02" => KM.Driver.C02.handler mode
+  | "C03" => KM.Driver.C03.handler mode
+  | "C04" => KM.Driver.C04.handler mode
+  | "C05" => KM.Driver.C05.handler mode
+  | "C06" => KM.Driver.C06.handler mode
+  | "C07" => KM.Driver.C07.handler mode
+  | "C08" => KM.Driver.C08.handler mode
+  | "C09" => KM.Driver.C09.handler mode
+  | "C10" => KM.Driver.C10.handler mode
+  | "C11" => KM.Driver.C11.handler mode
+  | "C12" => KM.Driver.C12.handler mode
+  | "C13" => KM.Driver.C13.handler mode
+  | "C14" => KM.Driver.C14.handler mode
+  | "C15" => KM.Driver.C15.handler mode
+  | "C16" => KM.Driver.C16.handler mode
   | "C17" => KM.Driver.C17.handler mode
+  | "C18" => KM.Driver.C18.handler mode
+  | "C19" => KM.Driver.C19.handler mode
+  | "C20" => KM.Driver.C20.handler mode
   | _ => none
 
 def main (args : List String) : IO UInt32 := do
